@@ -150,7 +150,7 @@ def dns_dims(part):
 
 
 def _dns_point(idx):
-    (nl, h0, h1, h2), td, cne, cn_i, order = decode_point(idx, dns_dims(P))
+    (nl, h0, h1, h2), td, cne, cn_i, order = decode_point(idx, dns_dims)
     return N_untraced(_dns_body)(nl, h0, h1, h2, td, 0, cne, cn_i, order)
 
 
@@ -210,7 +210,7 @@ def ip_dims(part):
 
 
 def _ip_point(idx):
-    return N_untraced(_ip_body)(*decode_point(idx, ip_dims(P)))
+    return N_untraced(_ip_body)(*decode_point(idx, ip_dims))
 
 
 def c08_ip(idx: int) -> bool:
@@ -285,7 +285,7 @@ def pin_dims(part):
 
 
 def _pin_point(idx):
-    ci, di, (op, i, c, n) = decode_point(idx, pin_dims(P))
+    ci, di, (op, i, c, n) = decode_point(idx, pin_dims)
     return N_untraced(_pin_body)(ci, di, op, i, c, n)
 
 
